@@ -467,6 +467,10 @@ class Circuit:
                 "Number of photons for herald should be an integer."
             )
         n_photons = int(n_photons)
+        if n_photons < 0:
+            raise ValueError(
+                "Number of photons for herald should not be negative."
+            )
         if output_mode is None:
             output_mode = input_mode
         input_mode = self._map_mode(input_mode)
